@@ -125,6 +125,153 @@ def chunk_local_index(o):
     o.canary('canary: chunk number is always 0', z3.Implies(rng, j.t == 0), under=p.pc)
 
 
+FPD = 'pylife/stress/rainflow/fourpoint.py::FourPointDetector'
+TPD = 'pylife/stress/rainflow/threepoint.py::ThreePointDetector'
+
+
+class KernelNS:
+    """pylife.rainflow_ext under contract: the compiled kernels are replaced by 'called with (arguments), returns five arrays' (their own contracts are the
+    obligations of fourpoint_loop.* / the C02 kernel generators); the glue obligations below speak about the arguments handed over and the use of the results"""
+    def __init__(self, o):
+        self.o = o
+        self.calls = []
+
+    def get(self, name):
+        def kernel(*args):
+            o = self.o
+            out = (o.array('from_vals_k', 'real'), o.array('to_vals_k', 'real'), o.array('from_index_k', 'int'), o.array('to_index_k', 'int'), o.array('residual_index_k', 'int'))
+            # kernel postconditions (obligations of the C02 kernel generators): the residual positions are strictly increasing positions of the input, at least one
+            n_in = args[0].n
+            qq = z3.Int('qk_')
+            o.I.assume(out[4].n >= (2 if name == 'threepoint_loop' else 1))
+            o.I.assume(z3.ForAll([qq], z3.Implies(z3.And(qq >= 0, qq < out[4].n), z3.And(z3.Select(out[4].a, qq) >= 0, z3.Select(out[4].a, qq) < n_in))))
+            o.I.assume(z3.ForAll([qq], z3.Implies(z3.And(qq >= 0, qq + 1 < out[4].n), z3.Select(out[4].a, qq) < z3.Select(out[4].a, qq + 1))))
+            self.calls.append((name, args, out))
+            return out
+        return kernel
+
+
+def _glue(o, ref, kernel_name, three):
+    q = z3.Int('q_')
+    det = Obj(o.cls(ref))
+    res = o.array('residuals0', 'real')
+    rix = o.array('residual_index0', 'int')
+    samples = o.array('samples', 'real')
+    # representation invariant of the detector between chunks (established by AbstractDetector.__init__: no residuals, residual index [0]; re-established below)
+    o.assume(samples.n >= 1, res.n >= 0, z3.If(res.n == 0, z3.And(rix.n == 1, z3.Select(rix.a, 0) == 0), rix.n == res.n - 1))
+    if three:
+        # the three-point kernel leaves at least two residuals (its front point and the provisional last sample): with exactly one stored residual np.argmax of the
+        # empty front would raise.  Not derived from the kernel's loop invariant here: assumed, with the bounded contract 'threepoint-residuals>=2' as evidence
+        o.assume(res.n != 1)
+        o.trusted("three-point kernel leaves >= 2 residuals (bounded contract threepoint-residuals>=2; not derived deductively)")
+    det.fields.update({'_residuals': res, '_residual_index': rix, '_recorder': Opaque(('external', 'recorder'))})
+    o.track(det)
+    tix = o.array('new_turns_index', 'int')
+    tv = o.array('new_turns_values', 'real', n=tix.n)
+    o.spec(GEN + 'AbstractDetector._new_turns', lambda I, args, kw: (tix, tv))
+    kns = KernelNS(o)
+    o.I.libs['pylife.rainflow_ext'] = kns
+    flush = o.bool('flush')
+
+    def thunk():
+        kns.calls.clear()
+        o.I.external_calls = []
+        r = o.I.call(o.method(det, 'process'), [samples, SV(flush)])
+        return r, list(kns.calls), list(o.I.external_calls), det.fields['_residuals'], det.fields['_residual_index']
+    ps = o.paths(thunk)
+    rets = [p for p in ps if p.kind == 'return']
+    o.shape(f'process returns on every path', len(rets) == len(ps) and len(rets) >= 1, [(p.kind, getattr(p.exc, 'exc_type', None)) for p in ps])
+    cl = {}
+
+    def clause(label, pc, goal):
+        cl.setdefault(label, []).append(z3.Implies(z3.And(*pc) if pc else z3.BoolVal(True), goal if z3.is_expr(goal) else z3.BoolVal(bool(goal))))
+    for p in rets:
+        o.take_side_obligations(p, 'process')
+        r, calls, ext, res2, rix2 = p.result
+        clause('process returns self', p.pc, r is det)
+        clause(f'{kernel_name} is called exactly once', p.pc, len(calls) == 1 and calls[0][0] == kernel_name)
+        if len(calls) != 1:
+            continue
+        _, args, out = calls[0]
+        turns, tindex = args[0], args[1]
+        nres = z3.If(res.n == 0, z3.IntVal(1), res.n - 1)            # residuals handed on: the first sample, or the stored residuals without the provisional last one
+
+        def resin(k):
+            return z3.If(res.n == 0, z3.Select(samples.a, k), z3.Select(res.a, k))
+        clause('kernel input = stored residuals (without the provisional one) ++ new turning points ++ last sample of the chunk', p.pc,
+               z3.And(turns.n == nres + tv.n + 1,
+                      z3.ForAll([q], z3.Implies(z3.And(q >= 0, q < nres), z3.Select(turns.a, q) == resin(q))),
+                      z3.ForAll([q], z3.Implies(z3.And(q >= 0, q < tv.n), z3.Select(turns.a, nres + q) == z3.Select(tv.a, q))),
+                      z3.Select(turns.a, nres + tv.n) == z3.Select(samples.a, samples.n - 1)))
+        clause('kernel index input = stored residual indices ++ indices of the new turning points', p.pc,
+               z3.And(tindex.n == rix.n + tix.n,
+                      z3.ForAll([q], z3.Implies(z3.And(q >= 0, q < rix.n), z3.Select(tindex.a, q) == z3.Select(rix.a, q))),
+                      z3.ForAll([q], z3.Implies(z3.And(q >= 0, q < tix.n), z3.Select(tindex.a, rix.n + q) == z3.Select(tix.a, q)))))
+        if three:
+            hf, lf, nr = args[2], args[3], args[4]
+            clause('three-point front guard: positions of the largest / smallest stored residual and their number', p.pc,
+                   z3.And(nr.t == nres, hf.t >= 0, hf.t < nres, lf.t >= 0, lf.t < nres,
+                          z3.ForAll([q], z3.Implies(z3.And(q >= 0, q < nres), z3.And(resin(q) <= resin(hf.t), resin(q) >= resin(lf.t))))))
+        ridx = out[4]
+        clause('new residuals = kernel input at the residual positions the kernel returns', p.pc,
+               z3.And(res2.n == ridx.n, z3.ForAll([q], z3.Implies(z3.And(q >= 0, q < ridx.n), z3.Select(res2.a, q) == z3.Select(turns.a, z3.Select(ridx.a, q))))))
+        clause('new residual indices = kernel index input at the residual positions except the provisional last one', p.pc,
+               z3.And(rix2.n == ridx.n - 1, z3.ForAll([q], z3.Implies(z3.And(q >= 0, q < ridx.n - 1), z3.Select(rix2.a, q) == z3.Select(tindex.a, z3.Select(ridx.a, q))))))
+        clause('the representation invariant holds again (at least one residual - two for three-point -, one index fewer than residuals)', p.pc, z3.And(res2.n >= (2 if three else 1), rix2.n == res2.n - 1))
+        names = [c[1] for c in ext]
+        clause('the recorder receives the kernel results once each and the chunk length', p.pc,
+               names == ['record_values', 'record_index', 'report_chunk'] and ext[0][2][0] is out[0] and ext[0][2][1] is out[1] and ext[1][2][0] is out[2] and ext[1][2][1] is out[3])
+        if names == ['record_values', 'record_index', 'report_chunk']:
+            ln = ext[2][2][0]
+            clause('report_chunk receives the number of samples of the chunk', p.pc, (ln.t if hasattr(ln, 't') else z3.IntVal(ln)) == samples.n)
+    for label, fs in cl.items():
+        o.prove(label, z3.And(*fs), kind='glue')
+    o.trusted("contract of _new_turns (returns index / value arrays of equal length): bounded stand-in only (vectorised numpy)")
+
+
+@obligation('C01', 'fourpoint.process.glue', functions=[FPD + '.process'])
+def fourpoint_glue(o):
+    """FourPointDetector.process for every stored state, every chunk and every result of _new_turns: what is handed to the kernel, what is stored for the next chunk
+    and what the recorder receives (the carry-over that makes the restart lemma applicable)"""
+    _glue(o, FPD, 'fourpoint_loop', False)
+
+
+@obligation('C01', 'threepoint.process.glue', functions=[TPD + '.process'])
+def threepoint_glue(o):
+    """ThreePointDetector.process: as for the four-point detector, plus the front-guard arguments (argmax / argmin and number of the stored residuals)"""
+    _glue(o, TPD, 'threepoint_loop', True)
+
+
+@bounded('C01', 'threepoint-residuals>=2', shards=4)
+def b_three_res(ctx):
+    """after every process() call of the three-point detector at least two residuals are stored (evidence for the precondition of threepoint.process.glue)"""
+    import itertools
+    import warnings
+    import numpy as np
+    import pylife.stress.rainflow as RF
+    warnings.simplefilter('ignore')
+    maxlen = 6 if ctx.tier == 'quick' else 8
+    ctx.bound = f"all signals over {{0,1,2,3}} of length 1..{maxlen}, one piece and every split into two chunks"
+    ctx.rule = "every (signal, split) is one case"
+    ctx.exhaustive = True
+    for L in range(1, maxlen + 1):
+        for s_ in itertools.product([0.0, 1.0, 2.0, 3.0], repeat=L):
+            if not ctx.mine():
+                continue
+            for cut in range(0, L):
+                d = RF.ThreePointDetector(recorder=RF.LoopValueRecorder())
+                ctx.case(True)
+                lens = []
+                if cut > 0:
+                    d.process(np.array(s_[:cut]))
+                    lens.append(len(d._residuals))
+                d.process(np.array(s_[cut:]))
+                lens.append(len(d._residuals))
+                if min(lens) < 2:
+                    ctx.fail('C01:threepoint-single-residual', f'three-point detector stores {lens} residuals after processing {s_} split at {cut}', {'signal': s_, 'cut': cut})
+    ctx.sample({'signal': [0, 3, 1, 2], 'cut': 2})
+
+
 # ---------------------------------------------------------------------------------------------
 @bounded('C01', 'chunk-independence', shards=16)
 def b_chunks(ctx):
